@@ -25,7 +25,7 @@ LEVEL = "proof"
 ASSUMPTIONS = [
     "the model covers ONE connection, select-based poll(), requests arriving whole; send_continue (100 Continue, F18/C04), cancel(), maintenance() and poll2 are not modelled",
     "Python attribute loads/stores are atomic and sequentially consistent (GIL); pre-emption inside C code / CPython containers is not represented",
-    "a socket send is offered all pending bytes (superset of the real chunking by outbuf and SO_SNDBUF); buffers are counters (FIFO contents: C17)",
+    "a socket send is offered all pending bytes (superset of the real chunking by outbuf and SO_SNDBUF); in the MODEL buffers are counters (FIFO contents: C17): that the real OverflowableBuffer keeps len() == bytes appended - bytes removed across its bytes -> BytesIO -> tempfile migrations and rotations is checked on the real channel only (accounting / empty-send / left-over monitors and the per-operation comparison of the bytes held, with STRBUF_LIMIT, outbuf_overflow and outbuf_high_watermark shrunk in the 'migrate' family)",
     "release is stated as absence of bad idle states (I/O thread blocked in select, or spinning through no-op poll turns) -- no fairness, no timers: the 1 s select timeout of the real loop only re-runs the same no-op turn",
     "the theorems speak for the code as repaired by 6aba4bf / daf1a85 / 7fa6a60 (shape flags all true; pinned by the shape audit); 0 <= outbuf_high_watermark is assumed (a negative watermark is not a configuration)",
 ]
@@ -277,7 +277,7 @@ def run(ctx):
     # ---- (2)+(3) campaign on the real code
     camp = Campaign(ctx, runner)
     rng = ctx.rng
-    budget = 420.0 if thorough else 30.0
+    budget = 420.0 if thorough else 28.0
     n_scn = 0
     t0 = time.time()
     while time.time() - t0 < budget and n_scn < (6000 if thorough else 400):
